@@ -513,6 +513,9 @@ theorem Tree.mat_unitary (t : Tree) (h : t.WF) : t.mat.IsUnitaryN (2 ^ t.wires) 
 
 theorem Tree.mat_isSq (t : Tree) (h : t.WF) : t.mat.IsSq (2 ^ t.wires) := (t.mat_unitary h).isSq
 
+/-- the assembled array is well-formed (`data.size = n * m`) -/
+theorem Tree.mat_wf (t : Tree) (h : t.WF) : t.mat.WF := (t.mat_isSq h).wf
+
 /-! ### the inverse tree -/
 
 theorem wiresHead_map_inverse (ts : List Tree) : wiresHead (ts.map Tree.inverse) = wiresHead ts := by
@@ -741,6 +744,98 @@ theorem Tree.multiplexed_entry (nc : ℕ) (ts : List Tree) (h : (Tree.multiplexe
       split_ifs
       · rw [← List.map_cons, List.getD_eq_getElem _ _ (by simpa using hk), List.getElem_map]
       · rfl
+
+/-! ### concrete well-formed trees (non-vacuity material for the property files) -/
+namespace Example
+
+def X : Mat := ⟨2, 2, #[0, 1, 1, 0]⟩
+def Z : Mat := ⟨2, 2, #[1, 0, 0, -1]⟩
+def S : Mat := ⟨2, 2, #[1, 0, 0, GQ.I]⟩
+def Sdg : Mat := ⟨2, 2, #[1, 0, 0, -GQ.I]⟩
+/-- `3/5 · Z` and `4/5 · 1`: a Hermitian contraction and the square root of `1 - H²` -/
+def H35 : Mat := ⟨2, 2, #[⟨3/5, 0⟩, 0, 0, ⟨-3/5, 0⟩]⟩
+def S45 : Mat := ⟨2, 2, #[⟨4/5, 0⟩, 0, 0, ⟨4/5, 0⟩]⟩
+
+theorem get_mk (n m : ℕ) (d : Array GQ) (i j : ℕ) : (Mat.mk n m d).get i j = d.getD (i * m + j) 0 := rfl
+
+theorem toC_mk_real (r : ℚ) : (GQ.mk r 0).toC = ((r : ℝ) : ℂ) := by apply Complex.ext <;> simp
+
+macro "entries2" : tactic =>
+  `(tactic| (ext i j; fin_cases i <;> fin_cases j <;>
+      simp [X, Z, S, Sdg, H35, S45, get_mk, toC_mk_real, Matrix.mul_apply, Fin.sum_univ_two, Matrix.one_apply]))
+
+theorem X_unitary : X.IsUnitaryN (2 ^ 1) := ⟨rfl, rfl, rfl, by entries2⟩
+theorem Z_unitary : Z.IsUnitaryN (2 ^ 1) := ⟨rfl, rfl, rfl, by entries2⟩
+theorem S_unitary : S.IsUnitaryN (2 ^ 1) := ⟨rfl, rfl, rfl, by entries2⟩
+
+def leafX : Tree := .leaf "PauliXGate" 1 X X true
+def leafS : Tree := .leaf "SGate" 1 S Sdg false
+
+theorem leafX_wf : leafX.WF := .leaf _ _ _ _ _ X_unitary X_unitary.isSq (by entries2) (fun _ => by entries2)
+theorem leafS_wf : leafS.WF := .leaf _ _ _ _ _ S_unitary ⟨rfl, rfl, rfl⟩ (by entries2) (fun h => absurd h (by decide))
+
+/-- `ControlledGate(MultiplexedGate([X, S], 1), 2, ctrl_state=[1, 0])`: four wires -/
+def tree1 : Tree := .controlled [true, false] (.multiplexed 1 [leafX, leafS])
+
+theorem tree1_wf : tree1.WF :=
+  .controlled _ _ (.multiplexed _ _ rfl
+    (by intro t ht; simp only [List.mem_cons, List.not_mem_nil, or_false] at ht; rcases ht with rfl | rfl; exacts [leafX_wf, leafS_wf])
+    (by intro t ht; simp only [List.mem_cons, List.not_mem_nil, or_false] at ht; rcases ht with rfl | rfl <;> simp [leafX, leafS]))
+
+theorem tree1_wires : tree1.wires = 4 := by simp [tree1, leafX]
+
+theorem H35_S45 : Mat.BlockHyp H35 S45 (2 ^ 1) where
+  hh := ⟨rfl, rfl, rfl⟩
+  hs := ⟨rfl, rfl, rfl⟩
+  herm_h := by entries2
+  herm_s := by entries2
+  sq := by entries2 <;> norm_num
+  comm := by entries2 <;> ring
+
+theorem X_real : X.IsReal (2 ^ 1) := by
+  intro i j hi hj
+  have hi : i < 2 := hi
+  have hj : j < 2 := hj
+  interval_cases i <;> interval_cases j <;> simp [X, get_mk]
+
+/-- `MultiplexedGate([ControlledGate(PrepareGate(…, transpose=True), 1, [0]), BlockEncodingGate(h, R)], 1)`: three wires -/
+def tree2 : Tree :=
+  .multiplexed 1 [.controlled [false] (.prepare 1 X [0, 1] true), .block 2 .R H35 S45]
+
+theorem tree2_wf : tree2.WF :=
+  .multiplexed _ _ rfl
+    (by
+      intro t ht; simp only [List.mem_cons, List.not_mem_nil, or_false] at ht
+      rcases ht with rfl | rfl
+      · exact .controlled _ _ (.prepare _ _ _ _ X_unitary X_real)
+      · exact .block 1 _ _ _ H35_S45)
+    (by intro t ht; simp only [List.mem_cons, List.not_mem_nil, or_false] at ht; rcases ht with rfl | rfl <;> simp)
+
+/-- `ControlledGate(MultiplexedGate([GeneralGate(Z), TimeEvolutionGate], 1), 1)`: three wires -/
+def tree3 : Tree := .controlled [true] (.multiplexed 1 [.general 1 Z, .timeEvo 1 S Sdg])
+
+theorem tree3_wf : tree3.WF :=
+  .controlled _ _ (.multiplexed _ _ rfl
+    (by
+      intro t ht; simp only [List.mem_cons, List.not_mem_nil, or_false] at ht
+      rcases ht with rfl | rfl
+      · exact .general _ _ Z_unitary
+      · exact .timeEvo _ _ _ S_unitary ⟨rfl, rfl, rfl⟩ (by entries2))
+    (by intro t ht; simp only [List.mem_cons, List.not_mem_nil, or_false] at ht; rcases ht with rfl | rfl <;> simp))
+
+/-- a composite whose Hermiticity answer is `True`: doubly controlled multiplexer of `X` and a Hermitian `GeneralGate(Z)` -/
+def tree4 : Tree := .controlled [false, true] (.multiplexed 1 [leafX, .general 1 Z])
+
+theorem tree4_wf : tree4.WF :=
+  .controlled _ _ (.multiplexed _ _ rfl
+    (by
+      intro t ht; simp only [List.mem_cons, List.not_mem_nil, or_false] at ht
+      rcases ht with rfl | rfl
+      · exact leafX_wf
+      · exact .general _ _ Z_unitary)
+    (by intro t ht; simp only [List.mem_cons, List.not_mem_nil, or_false] at ht; rcases ht with rfl | rfl <;> simp [leafX]))
+
+end Example
 
 end Gate
 end Qib
